@@ -127,7 +127,10 @@ func NewEnv(script vplug.Script, debug bool) (*Env, error) {
 	} else {
 		logger = log.NewLogger(log.LevelError, log.NewNOOPLogger())
 	}
-	cfg := &config.Config{}
+	// step outputs named success / error are "logged outputs" (a configuration feature): the code
+	// path that writes them is exercised, the harness logger drops the line
+	cfg := &config.Config{LoggedOutputConfigs: map[string]*config.StepOutputLogConfig{
+		"success": {LogLevel: log.LevelDebug}, "error": {LogLevel: log.LevelDebug}}}
 	depReg := deployerregistry.New(deployer.Any(vplug.NewFactory(w)))
 	pluginProvider, err := plugin.New(logger, depReg, map[string]any{
 		string(vplug.DeploymentType): map[string]any{"deployer_name": vplug.DeployerName},
